@@ -18,6 +18,7 @@ use std::io::{Cursor, Read, Write};
 use vh_common::*;
 mod wb;
 mod books;
+mod cover;
 
 const ROWS: usize = 1_000_000;
 fn pos(i: usize) -> (i32, i32) { ((i % ROWS) as i32 + 1, (i / ROWS) as i32 + 1) }
